@@ -3,8 +3,10 @@
    followed by Print Assumptions.  The tables are REGENERATED from the checked tree on every run
    (tools/tr_c02_*.py -> coq/gen/*.v), so these theorems are re-checked against what the code says now. *)
 From Coq Require Import ZArith List Bool.
+Import ListNotations.
 From MirV Require Import Mir.DocSpec Mir.CExpr C02.RowCheck C02.Table gen.InterpTable C02.InterpFacts
-  C02.GvnCheck gen.GvnFoldTable C02.GvnFacts C02.MemRows.
+  C02.GvnCheck gen.GvnFoldTable C02.GvnFacts C02.MemRows
+  C02.PeepholeDefs C02.PeepholeProofs gen.Peephole C02.PeepholeFacts.
 
 (* Interpreter (mir-interp.c): for every row of the regenerated table (every value, compare, branch
    and overflow opcode) and ALL operand values on which MIR.md defines the instruction, the row's C
@@ -59,3 +61,25 @@ Theorem ld_st_ext_trunc_sound : forall name s, In (name, s) interp_aux_table ->
   end.
 Proof. exact interp_mem_rows. Qed.
 Print Assumptions ld_st_ext_trunc_sound.
+
+(* Link-time algebraic shortcuts (mir.c simplify_func; the opcode/constant pairs are regenerated from the
+   source condition): `op r,x,C -> mov r,x` is only applied to instructions that define no overflow flag,
+   and x is the documented result of `op x,C` on the defined bits, for all x *)
+Theorem link_shortcut_sound : forall op c, In (op, c) shortcut_table ->
+  ovf_class op = None /\
+  forall a d, doc_sem_int op [a; c] = Some d ->
+    match int_res_width op with Some w => eqlow w (u64 a) d | None => False end.
+Proof. exact shortcuts_sound. Qed.
+Print Assumptions link_shortcut_sound.
+
+(* transform_mul_div (mir-gen.c; opcode map, guards on sh and the emitted instruction sequences are
+   regenerated from the source): for every source value x and every shift 0 <= sh < bound the generator
+   admits for that opcode, running the replacement sequence under the documented semantics of its
+   instructions gives the documented result of `op x, 2^sh` (mul -> lsh, udiv -> ursh, div -> the
+   sign-bias sequence) on the defined bits *)
+Theorem transform_mul_div_sound : forall op bound mv sq, In (op, bound, mv, sq) muldiv_table ->
+  forall x sh d, (0 <= sh < bound)%Z -> doc_sem_int op [x; (2 ^ sh)%Z] = Some d ->
+  exists r, run_seq x sh (if (sh =? 0)%Z then mv else sq) = Some r /\
+            match int_res_width op with Some w => eqlow w r d | None => False end.
+Proof. exact muldiv_rows_sound. Qed.
+Print Assumptions transform_mul_div_sound.
